@@ -1143,3 +1143,45 @@ impl<'de> DeserializeSeed<'de> for DeserializeTextResource {
             .map_err(|e| -> D::Error { serde::de::Error::custom(e) })
     }
 }
+
+#[cfg(stam_verif)]
+impl TextResource {
+    /// Verification hook: raw content of the resource's indices
+    pub fn verif_dump(&self) -> crate::verif_hooks::ResourceDump {
+        crate::verif_hooks::ResourceDump {
+            handle: self.intid.map(|h| h.as_usize()),
+            textlen: self.textlen,
+            textselections_len: self.textselections.len(),
+            textselections: self
+                .textselections
+                .iter()
+                .enumerate()
+                .filter_map(|(i, t)| {
+                    t.as_ref()
+                        .map(|t| (i, t.handle().map(|h| h.as_usize()), t.begin(), t.end()))
+                })
+                .collect(),
+            positionindex: self
+                .positionindex
+                .0
+                .iter()
+                .map(|(pos, item)| {
+                    (
+                        *pos,
+                        item.bytepos,
+                        item.end2begin
+                            .iter()
+                            .map(|(p, h)| (*p, h.as_usize()))
+                            .collect(),
+                        item.begin2end
+                            .iter()
+                            .map(|(p, h)| (*p, h.as_usize()))
+                            .collect(),
+                    )
+                })
+                .collect(),
+            byte2charmap: self.byte2charmap.iter().map(|(a, b)| (*a, *b)).collect(),
+            changed: self.changed(),
+        }
+    }
+}
